@@ -42,8 +42,14 @@ func (m *PositionMapper) LSPToByte(pos protocol.Position) int {
 	if line >= len(m.lines) {
 		return len(m.content)
 	}
+	text := m.lines[line]
+	if line < len(m.lines)-1 {
+		// The CR of a CRLF line end is part of the line terminator: a character past the
+		// end of the line clamps to the end of the line's text, before the CR.
+		text = strings.TrimSuffix(text, "\r")
+	}
 	byteOffset := m.lineStarts[line]
-	byteOffset += UTF16OffsetToByteOffset(m.lines[line], int(pos.Character))
+	byteOffset += UTF16OffsetToByteOffset(text, int(pos.Character))
 	return byteOffset
 }
 
